@@ -33,12 +33,59 @@ CLAIMED.update({
         "design_ref": "DESIGN.md 4 U-cnt, U-hdr",
     },
 })
+CLAIMED.update({
+    "C01": {
+        "text": "Proof of the local mechanisms canonicity rests on: node creation looks up the unique table before inserting and inserts under "
+                "the looked-up hash, returns the existing node on a hit (real forest::createReducedNode, all branches, unbounded node "
+                "size); EV+ edge values are normalised to one representative; the hash is a function of the pushed word sequence "
+                "(hash_stream grouping lemmas); edge equality is forest id + handle + value; terminal handles are injective. "
+                "Partial: unique-table chains, packed-node duplicate test and every operation's use of these are unverified.",
+        "note": COMMON_NOTE + " Completeness of the redundant/identity elimination (every redundant node IS eliminated) needs a counting "
+                "argument over all children and is not proved; soundness (only redundant/identity patterns are eliminated, the function is preserved) is.",
+        "design_ref": "DESIGN.md 4 U-reduce, U-hash, U-edge, U-term",
+    },
+    "C02": {
+        "text": "Proof at the point where nodes are made: transparent nodes are never stored, eliminated nodes are not stored and the "
+                "elimination preserves the function, quasi-reduced forests eliminate nothing but all-zero nodes, identity/redundant "
+                "elimination happens only where the rule allows it, EV+ values are normalised (zero children carry 0, values shifted by "
+                "the factored minimum, non-negative), the scratch node is recycled exactly once. Partial (see note).",
+        "note": COMMON_NOTE + " Not covered: in-place rewrite during reordering, chain builders, node-count bookkeeping across histories, "
+                "completeness of elimination (counting argument).",
+        "design_ref": "DESIGN.md 4 U-reduce, U-hash",
+    },
+    "C03": {
+        "text": "Proof of the partition step the minterm-collection builders rest on (fbuilder_common::moveValuesToFront / movePairsToFront / "
+                "getMinMax, real bodies, loop contracts): the front part holds exactly the front value, nothing outside [low,high) moves, "
+                "the split point is in range; 'the back part holds no front value' is proved with a quantified invariant on z3 for "
+                "collections of up to 1000 minterms (labelled bounded). The recursive builders and evaluate are not covered.",
+        "note": COMMON_NOTE,
+        "design_ref": "DESIGN.md 4 U-mint",
+    },
+    "C13": {
+        "text": "Proof that the variable-order bookkeeping every swap goes through keeps the two order maps mutually inverse "
+                "(variable_order::exchange, unbounded number of variables); the node rewriting of the swap algorithms is out of reach.",
+        "note": COMMON_NOTE,
+        "design_ref": "DESIGN.md 4 U-vord",
+    },
+    "C15": {
+        "text": "Proof of the index-set lookup descent (dd_edge::getElemInt/getElemLong, real bodies, loop contracts): at every level the "
+                "largest position whose offset does not exceed the remaining index is chosen, only real nodes are unpacked (this "
+                "obligation exposed the crash on the empty set, fixed), negative indexes and the empty set fail, mismatches raise "
+                "the documented errors. The conversion mdd2index is not covered.",
+        "note": COMMON_NOTE,
+        "design_ref": "DESIGN.md 4 U-index",
+    },
+    "C16": {
+        "text": "Proof of the direct raises with their codes: VALUE_OVERFLOW for integers outside the terminal range and only those "
+                "(U-term), FOREST_MISMATCH / INVALID_OPERATION / DOMAIN_MISMATCH guards of the index lookup (U-index). Partial: "
+                "operand checks in operation constructors and the state after an error deep in a recursion are not covered.",
+        "note": COMMON_NOTE,
+        "design_ref": "DESIGN.md 4 U-term, U-index",
+    },
+})
 NA_HEAP = ("no function contract within CBMC's reach can express it: the content is a recursion over the decision-diagram heap "
            "(needs an inductive 'node p denotes f' predicate and induction), in template/virtual C++ the front end rejects")
 NOT_APPLICABLE = {
-    "C01": "work in progress in this session (units U-hash/U-reduce/U-codec/U-edge not built yet)",
-    "C02": "work in progress in this session",
-    "C03": "work in progress in this session",
     "C04": "set algebra: " + NA_HEAP,
     "C05": "work in progress in this session",
     "C08": "reachability fixed points: " + NA_HEAP,
@@ -46,10 +93,7 @@ NOT_APPLICABLE = {
     "C10": "cross-forest copy: " + NA_HEAP + "; the scalar conversions are covered under C19",
     "C11": "enumeration and counting: " + NA_HEAP,
     "C12": "work in progress in this session",
-    "C13": "work in progress in this session",
     "C14": "exchange files: stream I/O (fprintf/fscanf/iostream) plus one recursion over the diagram; outside CBMC contracts",
-    "C15": "work in progress in this session",
-    "C16": "work in progress in this session",
     "C17": "lifecycles: a history property over global registries, destructor order and std::vector; no per-function contract carries it",
     "C18": "work in progress in this session",
     "C20": "partitioned saturation: " + NA_HEAP,
